@@ -25,6 +25,8 @@ EXTENDS TraceLib, OnnxOps
 VARIABLES l, nbad, cur, cnt, per
 
 NoCase == [op |-> "none"]
+\* operators whose trailing outputs are optional: the harness may request fewer
+OptionalTrailingOutputs == {"Dropout"}
 Counters == [cases |-> 0, judged |-> 0, undefined |-> 0, unmodelled |-> 0, err |-> 0, panic_unjudged |-> 0]
 \* per-operator counters (domain bounded by the number of operators: O(1) state)
 PerZero == [judged |-> 0, undefined |-> 0, unmodelled |-> 0, err |-> 0]
@@ -41,7 +43,7 @@ OutT(o) == Mk(o.shape, o.dtype, o.data)
 \* `isbool`: the outputs are ONNX bool tensors, compared by truthiness (v # 0).
 Truth(d) == [k \in 1..Len(d) |-> IF d[k] # 0 THEN 1 ELSE 0]
 Mismatch(exp, outs, isbool) ==
-  IF Len(outs) # Len(exp) THEN "shape"
+  IF Len(outs) # Len(exp) THEN "shape"          \* (exp is already cut to the number of requested outputs)
   ELSE IF \E k \in 1..Len(exp) : outs[k].shape # exp[k].shape THEN "shape"
   ELSE IF \E k \in 1..Len(exp) : outs[k].dtype # exp[k].dtype THEN "dtype"
   ELSE IF \E k \in 1..Len(exp) :
@@ -77,7 +79,9 @@ Ret ==
      ELSE
        CASE e.outcome = "ok" ->
               /\ cnt' = [cnt EXCEPT !.judged = @ + 1] /\ Bump(cur.op, "judged")
-              /\ LET m == Mismatch(ref.outs, e.outs, OnnxBoolOutput(cur.op, cur.attrs)) IN IF m = "" THEN UNCHANGED nbad ELSE Bad(m)
+              /\ LET want == IF cur.op \in OptionalTrailingOutputs /\ cur.nout < Len(ref.outs)
+                              THEN SubSeq(ref.outs, 1, cur.nout) ELSE ref.outs
+                     m == Mismatch(want, e.outs, OnnxBoolOutput(cur.op, cur.attrs)) IN IF m = "" THEN UNCHANGED nbad ELSE Bad(m)
          [] e.outcome \in {"panic", "abort"} ->
               /\ cnt' = [cnt EXCEPT !.judged = @ + 1] /\ Bump(cur.op, "judged")
               /\ Bad("panic")
